@@ -210,6 +210,39 @@ def run(ctx):
             ids.append(cid)
             cases.append({"id": cid, "steps": st2, "marks": marks})
         groups.append((f"k{t}", steps, marks, ids))
+    # a storage error while a backup sets up its version (the index directory refused, the head refused), answered at once
+    # in one replay and after a long (virtual) while in another: what the failed backup leaves behind, and what the next
+    # backup writes, must be the same
+    for t in range(2 if quick else 8):
+        def fe(d, m):
+            return {"k": "f", "data": d.hex(), "mode": 0o644, "mtime": 10**18 + m}
+        ta = {"k": "d", "mode": 0o755, "mtime": 10**18, "c": {"a": fe(b"one", 1)}}
+        tb = {"k": "d", "mode": 0o755, "mtime": 10**18, "c": {"a": fe(b"two!", 2), "b": fe(b"bee", 3)}}
+        oo = {"meph": 100000, "mbs": 64, "sfc": ctx.rng.choice([0, 16])}
+        pre = [{"op": "init", "runtime": "paused"}, {"op": "mktree", "path": "src", "tree": ta}, {"op": "backup", "opts": oo, "runtime": "paused"},
+               {"op": "mktree", "path": "src", "tree": tb}]
+        probe = ctx.cvh_run([{"id": "p", "steps": pre + [{"op": "backup", "opts": oo, "runtime": "paused"}]}]).get("p")
+        if not probe or not probe[4].get("trace"):
+            continue
+        target = [("CreateDir", "b0001/i"), ("Write", "b0001/BANDHEAD")][t % 2]
+        ks = [it.get("i") for it in probe[4]["trace"] if it.get("verb") == target[0] and it.get("path") == target[1]]
+        if not ks or ks[0] is None:
+            continue
+        rule = [target[0], target[1], 0, ctx.rng.choice(["PermissionDenied", "Other"])]
+        steps = pre + [{"op": "backup", "opts": oo, "plan": {"rules": [rule]}}, {"op": "arch"}, {"op": "backup", "opts": oo}, {"op": "arch"}]
+        marks = [{"kind": k_} for k_ in ("init", "mktree", "backup", "mktree", "backup", "arch", "backup", "arch")]
+        ids = []
+        for name, rt, delays in (("atonce", "paused", None), ("late", "paused", [[ks[0], 90000]]), ("real", "current", None), ("multi", "multi2", None)):
+            st2 = copy.deepcopy(steps)
+            for s_ in st2:
+                if s_["op"] in ("backup", "init"):
+                    s_["runtime"] = rt
+            if delays:
+                st2[4]["plan"]["delays"] = delays
+            cid = f"e{t}_{name}"
+            ids.append(cid)
+            cases.append({"id": cid, "steps": st2, "marks": marks})
+        groups.append((f"e{t}", steps, marks, ids))
     res = ctx.cvh_run(cases, timeout=3000)
     hs = []
     for t, steps, marks, ids in groups:
@@ -243,7 +276,7 @@ def run(ctx):
         if sum(1 for m in marks if m["kind"] == "backup") >= 2:
             ctx.nontrivial(json.dumps([m["kind"] + str(m.get("ids") or "") for m in marks if m["kind"] in ("backup", "delete")]))
         if isinstance(t, str):
-            ctx.dist("killed_operation_histories" if t.startswith("k") else "many_small_files_histories")
+            ctx.dist("killed_operation_histories" if t.startswith("k") else ("failed_setup_histories" if t.startswith("e") else "many_small_files_histories"))
             continue
         # the model against the multi-threaded run (traces are compared without the concurrently issued groups' order)
         cid, archs, r = finals[2]
